@@ -5,6 +5,9 @@
 :- use_module(library(files)).
 :- use_module(library(lists)).
 
+% a name is a list of characters (taken relative to Base) or rel(Path): a path
+% relative to the worker's working directory, used as it is
+c48_path(_, rel(R), P) :- !, P = R.
 c48_path(Base, Name, P) :- append(Base, ['/'|Name], P).
 
 c48_out(G, R) :- catch(( call(G) -> R = true ; R = false ), E, c48_err(E, R)).
